@@ -39,7 +39,7 @@ class T:
 
     def pretty(self) -> str:
         o = self.op
-        if o in ("param", "name", "free"):
+        if o in ("param", "name", "free", "localfn"):
             return str(self.name)
         if o == "const":
             return repr(self.name)
@@ -216,8 +216,13 @@ class Expander:
             self._record_names(st.value, env)
             load = ast.copy_location(_as_load(st.target), st.target)
             self._record_names(load, env)
-            v = T("binop", BINOPS.get(type(st.op), "?"), [self._tr(load), self._tr(st.value)], node=st)
+            old = self._tr(load)
+            v = T("binop", BINOPS.get(type(st.op), "?"), [old, self._tr(st.value)], node=st)
             v.kw["aug"] = T("const", True)
+            if isinstance(st.target, ast.Name):
+                # `x += y` mutates x in place when x is a list/dict/array-like alias
+                self.stores.append(Store("aug", old, T("const", BINOPS.get(type(st.op), "?")), self._tr(st.value), st, st,
+                                         tuple(self.guard_stack)))
             self._bind_target(st.target, v, env)
             return env
         if isinstance(st, ast.Expr):
